@@ -226,10 +226,21 @@ func c19Schema(c *core.Ctx, s gen.S, sc *openapi3.Schema, values []any, directed
 		if len(markers) == 0 {
 			continue
 		}
-		for _, m := range modes {
+		typedV, hasTyped := typedSlices(gen.CloneValue(v))
+		for mi := 0; mi < 2*len(modes); mi++ {
+			m := modes[mi%len(modes)]
 			var err error
-			c.Eval()
 			kv := gen.CloneValue(v)
+			if mi >= len(modes) {
+				// the same value as a Go program holds it: string lists as []string rather than []any
+				if !hasTyped {
+					break
+				}
+				kv = typedV
+				m.name += "/typed-slices"
+				c.Cover("value_representation", "typed-slices")
+			}
+			c.Eval()
 			if pi := core.Guard(func() { err = sc.VisitJSON(kv, m.opts...) }); pi != nil {
 				c.Violate(core.PanicFeatures(pi), c19W(s, v, m.name, "panic", pi.Value), pi.Stack)
 				continue
@@ -278,6 +289,43 @@ func c19Schema(c *core.Ctx, s gen.S, sc *openapi3.Schema, values []any, directed
 			}
 		}
 	}
+}
+
+// typedSlices returns v with every non-empty list of strings held as []string (what a Go caller passes for a decoded
+// form or header value), and whether there was one.
+func typedSlices(v any) (any, bool) {
+	switch x := v.(type) {
+	case []any:
+		allStr := len(x) > 0
+		for _, e := range x {
+			if _, ok := e.(string); !ok {
+				allStr = false
+			}
+		}
+		if allStr {
+			o := make([]string, len(x))
+			for i, e := range x {
+				o[i] = e.(string)
+			}
+			return o, true
+		}
+		found := false
+		for i, e := range x {
+			ne, f := typedSlices(e)
+			x[i] = ne
+			found = found || f
+		}
+		return x, found
+	case map[string]any:
+		found := false
+		for k, e := range x {
+			ne, f := typedSlices(e)
+			x[k] = ne
+			found = found || f
+		}
+		return x, found
+	}
+	return v, false
 }
 
 func c19W(s gen.S, v any, mode, where, text string) c19Witness {
